@@ -4,6 +4,7 @@ package h
 // (NameGen); the real Compare/Equal/IsPrefix/Hash/PrefixHash/Bytes/String/NameFromStr are evaluated on it.
 
 import (
+	"strings"
 	"bytes"
 	"encoding/json"
 	"fmt"
@@ -176,6 +177,7 @@ func TestNames(t *testing.T) {
 			S string `json:"s"`
 		}
 		json.Unmarshal(line, &s)
+		s.S = strings.ReplaceAll(s.S, "HI", "\xc3\xa9\x80") // bytes >= 0x80 (the generator module writes them as the token HI)
 		for _, str := range []string{s.S, "/" + s.S, s.S + "/", "/a/" + s.S} {
 			outcome := "ok"
 			func() {
